@@ -375,4 +375,89 @@ def subchecks(tier):
         SubCheck("backend/thread_local_only", st.builds(_only_local, st.lists(_op, min_size=8, max_size=n)), o_backend, quick=200, thorough=1500),
         SubCheck("tenalg/mixed", _history(n), o_tenalg, quick=400, thorough=3000),
         SubCheck("tenalg/thread_local_only", st.builds(_only_local, st.lists(_op, min_size=8, max_size=n)), o_tenalg, quick=200, thorough=1500),
+        # free-running stress with a 1 us switch interval (thread-local operations only); run index i only makes cases distinct
+        SubCheck("backend/stress", st.builds(lambda i: {"kind": "backend", "seconds": 0.4 if tier == "quick" else 3.0, "i": i}, st.integers(0, 10 ** 6)),
+                 o_stress, quick=3, thorough=10, shards_thorough=2),
+        SubCheck("tenalg/stress", st.builds(lambda i: {"kind": "tenalg", "seconds": 0.4 if tier == "quick" else 3.0, "i": i}, st.integers(0, 10 ** 6)),
+                 o_stress, quick=3, thorough=10, shards_thorough=2),
     ]
+
+
+# ----------------------------------------------------------------------------
+# free-running stress (can only expose, never exclude, races inside one manager call)
+# ----------------------------------------------------------------------------
+def _stress(kind, seconds):
+    import sys
+    import time
+    _install()
+    mgr = _Mgr(kind)
+    _run_in_fresh_thread(lambda: mgr.m.set_backend(mgr.base))
+    errors = []
+    counts = [0] * 4
+    stop = threading.Event()
+    names = mgr.names
+
+    def selector(i):
+        mine = names[i % len(names)]
+        other = names[(i + 1) % len(names)]
+        try:
+            while not stop.is_set():
+                mgr.m.set_backend(mine, local_threadsafe=True)
+                if mgr.get() != mine or mgr.dispatched() != mine:
+                    errors.append(f"thread {i}: selected {mine!r} thread-locally but observes {mgr.get()!r}")
+                    return
+                with mgr.m.backend_context(other, local_threadsafe=True):
+                    if mgr.get() != other or mgr.dispatched() != other:
+                        errors.append(f"thread {i}: inside local context {other!r} observes {mgr.get()!r}")
+                        return
+                try:
+                    with mgr.m.backend_context(other, local_threadsafe=True):
+                        raise KeyError("x")
+                except KeyError:
+                    pass
+                if mgr.get() != mine:
+                    errors.append(f"thread {i}: after local contexts observes {mgr.get()!r}, expected {mine!r}")
+                    return
+                try:
+                    mgr.m.set_backend("nope", local_threadsafe=True)
+                    errors.append(f"thread {i}: unknown backend accepted")
+                    return
+                except ValueError:
+                    pass
+                counts[i] += 1
+        except BaseException as e:  # noqa
+            errors.append(f"thread {i}: raised {e!r}")
+
+    def watcher():
+        try:
+            while not stop.is_set():
+                g = mgr.get()
+                d = mgr.dispatched()
+                if g != mgr.base or d != mgr.base:
+                    errors.append(f"never-selecting thread observes {g!r}/{d!r} while only thread-local operations run (default {mgr.base!r})")
+                    return
+                counts[3] += 1
+        except BaseException as e:  # noqa
+            errors.append(f"watcher raised {e!r}")
+
+    old = sys.getswitchinterval()
+    sys.setswitchinterval(1e-6)
+    ths = [threading.Thread(target=selector, args=(i,)) for i in range(3)] + [threading.Thread(target=watcher)]
+    try:
+        for th in ths:
+            th.start()
+        time.sleep(seconds)
+        stop.set()
+        for th in ths:
+            th.join(20)
+    finally:
+        sys.setswitchinterval(old)
+        _run_in_fresh_thread(lambda: mgr.m.set_backend(mgr.base))
+    return sum(counts), errors
+
+
+def o_stress(case):
+    n, errs = _stress(case["kind"], case["seconds"])
+    if errs:
+        raise Fail("stress/" + case["kind"], errs[0])
+    return {"nontrivial": n > 100, "labels": [f"rounds>={(n // 1000) * 1000}"]}
